@@ -29,7 +29,7 @@ class ClassSpec:
 
 
 class LoopSpec:
-    def __init__(self, invariant=(), decreases=None, ghost_end=(), unroll=None, label=None):
+    def __init__(self, invariant=(), decreases=None, ghost_end=(), unroll=None, label=None, hide=None):
         self.invariant = [parse_expr(s) for s in invariant]
         self.invariant_src = list(invariant)
         self.decreases = parse_expr(decreases) if decreases else None
@@ -37,6 +37,7 @@ class LoopSpec:
         self.ghost_end = [parse_stmts(s) for s in ghost_end]
         self.unroll = unroll
         self.label = label
+        self.hide = list(hide or [])     # indices of `requires` clauses not needed by this loop's preservation step (hidden from the solver first)
 
 
 class FnSpec:
@@ -178,5 +179,5 @@ def fn(qual, **kw):
     return f
 
 
-def loop(invariant=(), decreases=None, ghost_end=(), unroll=None, label=None):
-    return LoopSpec(invariant, decreases, ghost_end, unroll, label)
+def loop(invariant=(), decreases=None, ghost_end=(), unroll=None, label=None, hide=None):
+    return LoopSpec(invariant, decreases, ghost_end, unroll, label, hide)
